@@ -43,6 +43,8 @@ func runC01(c *Ctx) {
 		cycleGuard(s, "R3", "(*Value).toGoValueInterval")
 		cycleGuard(s, "R3", "(*Value).prettyStringInteral")
 	})
+	c.shared("R13", "C12/R8", "building an error message never crashes: the line / column computation is the recognised scan over byte offsets, which slices the source text only between a recorded line start and the scan index (no computed bound that an empty text or an end position could push out of range)", keyHas("scan-index", "line-", "column", "source-line"), c12LineColArithmetic)
+	c.shared("R14", "C09/R3", "a function value never becomes an element of a container: call arguments and literal items are copied on insertion, and the copy rejects functions — sort's clone and the renderers rely on every element being a data value", keyHas("copy-on-insert", "copy-flag-"), c09R3)
 	c.shared("R12", "C15/R2", "no nil cell ever sits in a slice that a value may still cover: pop and popfirst only re-slice their receiver, nothing is written into the backing array (which copies of the array share), so rendering or iterating another reference never meets a nil cell", keyHas("array.pop", "array.push"), func(s *Ctx) { c15R2(s, nativeMethods(s.P)) })
 	c.shared("R9", "C08/R3", "runaway recursion ends in an error, not in a Go stack overflow: every frame pushed on another one is one deeper, and the depth test precedes the push", keyHas("depth"), func(s *Ctx) { c08R3(s, discoverFrameModel(s.P), "R3") })
 }
